@@ -112,7 +112,7 @@ def oracle(tier, rng, deep=False):
 
                 def sgl_solve(Xm, gi_, wf_):
                     df_ = cc(sd.QuadraticGroup(gpS, gi_)); pen_ = cc(sp.WeightedL1GroupL2(aS, wgS, wf_, gpS, gi_))
-                    return ss.GroupBCD(tol=tol, fit_intercept=False, max_iter=2000, max_epochs=1000).solve(np.asfortranarray(Xm), y, df_, pen_)[0]
+                    return ss.GroupBCD(tol=tol, fit_intercept=False, max_iter=2000, max_epochs=1000, ws_strategy="fixpoint").solve(np.asfortranarray(Xm), y, df_, pen_)[0]
                 wA = sgl_solve(X, giS, wfS)
                 wB = sgl_solve(X[:, order], np.arange(p, dtype=np.int32), wfS[order])
                 cmp("feature-relabelling:GroupBCD:WeightedL1GroupL2", wB, wA[order], dict(inp, order=order, sizes=sizes, weights_features=wfS.tolist(), weights_groups=wgS.tolist(), alpha=aS))
